@@ -41,6 +41,7 @@ from bqskit.ir.gates.constant.swap import SwapGate
 from bqskit.ir.gates.constant.sx import SXGate
 from bqskit.ir.gates.constant.sycamore import SycamoreGate
 from bqskit.ir.gates.constant.t import TGate
+from bqskit.ir.gates.constant.sqrtt import SqrtTGate
 from bqskit.ir.gates.constant.tdg import TdgGate
 from bqskit.ir.gates.constant.x import XGate
 from bqskit.ir.gates.constant.xx import XXGate
@@ -243,6 +244,7 @@ class OPENQASMVisitor(Visitor):
         self.gate_defs['v'] = GateDef('v', 0, 1, SXGate())
         self.gate_defs['syc'] = GateDef('syc', 0, 2, SycamoreGate())
         self.gate_defs['t'] = GateDef('t', 0, 1, TGate())
+        self.gate_defs['st'] = GateDef('st', 0, 1, SqrtTGate())
         self.gate_defs['tdg'] = GateDef('tdg', 0, 1, TdgGate())
         self.gate_defs['x'] = GateDef('x', 0, 1, XGate())
         self.gate_defs['xx'] = GateDef('xx', 0, 2, XXGate())
